@@ -496,9 +496,12 @@ def run_sampling_affine(out, ctx):
 
 def run(out, ctx):
     import traceback
+    import time
     for part in (run_sampling_affine, run_density, run_getitem):
+        t0 = time.time()
         try:
             part(out, ctx)
+            out.extra.setdefault("part_wall_s", {})[part.__name__] = round(time.time() - t0, 1)
         except Exception:       # an implementation exception outside a guarded call: report it, keep going with the other parts
             tb = traceback.format_exc()
             C.log(tb)
